@@ -1165,6 +1165,8 @@ class quantized_linear(base_quantizer.BaseQuantizer):
       return self.quantization_scale * tf.concat([pos_array, neg_array], axis=0)
 
   def __str__(self):
+    def list_to_str(l):
+      return ",".join([str(x) for x in l])
 
     # Main parameters always printed in string
     flags = [
@@ -1184,7 +1186,10 @@ class quantized_linear(base_quantizer.BaseQuantizer):
       flags.append("use_stochastic_rounding=" +
                    str(int(self.use_stochastic_rounding)))
     if self.scale_axis is not None:
-      flags.append("scale_axis=" + str(self.scale_axis).replace(" ", ""))
+      if isinstance(self.scale_axis, list):
+        flags.append("scale_axis=[" + list_to_str(self.scale_axis) + "]")
+      else:
+        flags.append("scale_axis=" + str(self.scale_axis).replace(" ", ""))
     return "quantized_linear(" + ",".join(flags) + ")"
 
   def _set_trainable_parameter(self):
@@ -1333,6 +1338,9 @@ class quantized_bits(base_quantizer.BaseQuantizer):  # pylint: disable=invalid-n
     self.max_po2_exponent = max_po2_exponent
 
   def __str__(self):
+    def list_to_str(l):
+      return ",".join([str(x) for x in l])
+
     # Convert Tensors to printable strings by converting to a numpy array and
     # then using regex to remove brackets when there is only one integer bit
     integer_bits = re.sub(
@@ -1352,12 +1360,19 @@ class quantized_bits(base_quantizer.BaseQuantizer):  # pylint: disable=invalid-n
       flags.append("use_stochastic_rounding=" +
                    str(int(self.use_stochastic_rounding)))
     if self.scale_axis is not None:
-      flags.append("scale_axis=" + str(self.scale_axis).replace(" ", ""))
+      if isinstance(self.scale_axis, list):
+        flags.append("scale_axis=[" + list_to_str(self.scale_axis) + "]")
+      else:
+        flags.append("scale_axis=" + str(self.scale_axis).replace(" ", ""))
     if not self.use_ste:
       flags.append("use_ste=False")
     if self.elements_per_scale is not None:
-      flags.append("elements_per_scale=" +
-                   str(self.elements_per_scale).replace(" ", ""))
+      if isinstance(self.elements_per_scale, list):
+        flags.append("elements_per_scale=[" +
+                     list_to_str(self.elements_per_scale) + "]")
+      else:
+        flags.append("elements_per_scale=" +
+                     str(self.elements_per_scale).replace(" ", ""))
     if self.min_po2_exponent is not None:
       flags.append("min_po2_exponent=" + str(self.min_po2_exponent))
     if self.max_po2_exponent is not None:
@@ -3337,6 +3352,9 @@ class quantized_hswish(quantized_bits):  # pylint: disable=invalid-name
   def __str__(self):
     """Converts Tensors to printable strings."""
 
+    def list_to_str(l):
+      return ",".join([str(x) for x in l])
+
     integer_bits = re.sub(
         r"\[(\d)\]",
         r"\g<1>",
@@ -3367,7 +3385,10 @@ class quantized_hswish(quantized_bits):  # pylint: disable=invalid-name
           "use_stochastic_rounding=" + str(int(self.use_stochastic_rounding))
       )
     if self.scale_axis is not None:
-      flags.append("scale_axis=" + str(self.scale_axis).replace(" ", ""))
+      if isinstance(self.scale_axis, list):
+        flags.append("scale_axis=[" + list_to_str(self.scale_axis) + "]")
+      else:
+        flags.append("scale_axis=" + str(self.scale_axis).replace(" ", ""))
     return "quantized_hswish(" + ",".join(flags) + ")"
 
   def __call__(self, x):
